@@ -84,6 +84,9 @@ Next == \/ \E c \in 1..MaxK : c \in Children /\ (Put(c) \/ CrashPut(c) \/ Exit(c
         \/ \E x \in AllItems : Feed(x) \/ Get(x)
         \/ PollAlive \/ EndDrain
 
+vars == <<produced, buffered, pipe, got, sem, alive, crashed, ppc, snapshot>>
+Spec == Init /\ [][Next]_vars
+
 \* everything child c has put so far (its results and, if it crashed, its marker)
 ItemsOf(c) == {x \in AllItems : x[1] = c /\ ((x[2] >= 1 /\ x[2] <= produced[c]) \/ (x[2] = 0 /\ c \in crashed))}
 Put_so_far == {x \in AllItems : x[1] \in Children /\ x \in ItemsOf(x[1])}
